@@ -255,8 +255,14 @@ def okTop : SStmt → Bool
 def okProg (p : SProg) : Bool := p.args.all (fun a => userName a.1) && p.body.all okTop
 
 
-/-- the arguments as the rewriter sees them: no tuple-typed argument -/
-def aargsOf (p : SProg) : Args := p.args.map fun a => (a.1, none)
+/-- the annotation of an argument of the theorems' types, as `ReplaceTypeAnn` leaves it -/
+def tyAnn : Ty → SExp
+  | .bool => .name "bool"
+  | .qint w => .sub (.name "Qint") (.const (.int w))
+  | _ => .other "type"
+
+/-- the arguments as the rewriter sees them -/
+def aargsOf (p : SProg) : Args := p.args.map fun a => (a.1, tyAnn a.2)
 
 
 end QV.A2A
